@@ -28,8 +28,15 @@ func VerifH_C08_splice_callbacks() {
 		}
 		del := n - start
 		script := "var r = a.splice(p); [r.length, a.length, r.length ? r[0] : -1, a.length ? a[a.length-1] : -1].join('|')"
+		explicitUndef := verifNondetBool() // splice(p, undefined, 'x'): ToInteger(undefined) = 0 elements deleted
+		if explicitUndef {
+			vm.Set("q", Value{})
+		}
 		if !qUndef {
 			del = verifMin(verifMax(clampInt(q), 0), n-start)
+			if explicitUndef {
+				del = 0
+			}
 			script = "var r = a.splice(p, q, 'x'); [r.length, a.length, r.length ? r[0] : -1, a.indexOf('x')].join('|')"
 		}
 		v, ok := verifRun(vm, script)
